@@ -235,7 +235,7 @@ func (g *generator) fill(gp *genPkg, w *strings.Builder, ind string, t types.Typ
 		case types.Float64:
 			call = "vF64"
 		case types.String:
-			fmt.Fprintf(w, "%sif vBool(%s + \".nonEmpty\") {\n%s\t%s = %s(string([]byte{'a' + vU8(%s)%%2}))\n%s}\n", ind, name, ind, lv, ty, name, ind)
+			fmt.Fprintf(w, "%sif !vGenLean && vBool(%s+\".nonEmpty\") {\n%s\t%s = %s(string([]byte{'a' + vU8(%s)%%2}))\n%s}\n", ind, name, ind, lv, ty, name, ind)
 			return
 		default:
 			return
@@ -255,7 +255,7 @@ func (g *generator) fill(gp *genPkg, w *strings.Builder, ind string, t types.Typ
 				fmt.Fprintf(w, "%s%s = %s\n", ind, lv, b)
 				return
 			}
-			fmt.Fprintf(w, "%s%s = (%s)(vNilIf(vBool(%s+\".nil\"), %s.Pointer(%s)))\n", ind, lv, ty, name, us, b)
+			fmt.Fprintf(w, "%s%s = (%s)(vNilIf(vOr(vGenNoOptional, vBool(%s+\".nil\")), %s.Pointer(%s)))\n", ind, lv, ty, name, us, b)
 			return
 		}
 		e := tmp("e")
@@ -266,25 +266,37 @@ func (g *generator) fill(gp *genPkg, w *strings.Builder, ind string, t types.Typ
 		if nonNil {
 			fmt.Fprintf(w, "%s%s = %s\n", ind, lv, e)
 		} else {
-			fmt.Fprintf(w, "%s%s = (%s)(vNilIf(vBool(%s+\".nil\"), %s.Pointer(%s)))\n", ind, lv, ty, name, us, e)
+			fmt.Fprintf(w, "%s%s = (%s)(vNilIf(vOr(vGenNoOptional, vBool(%s+\".nil\")), %s.Pointer(%s)))\n", ind, lv, ty, name, us, e)
 		}
 	case *types.Array:
 		i := tmp("i")
 		fmt.Fprintf(w, "%sfor %s := range %s {\n", ind, i, lv)
-		g.fill(gp, w, ind+"\t", u.Elem(), fmt.Sprintf("%s[%s]", lv, i), name+"+\"[]\"", depth+1)
+		g.fill(gp, w, ind+"\t", u.Elem(), fmt.Sprintf("%s[%s]", lv, i), name+"+vGenIdx("+i+")", depth+1)
 		fmt.Fprintf(w, "%s}\n", ind)
 	case *types.Slice:
 		k, i := tmp("k"), tmp("i")
-		fmt.Fprintf(w, "%sfor %s, %s := 0, vChoice(%s+\".len\", vGenMaxLen()+1); %s < %s; %s++ {\n", ind, i, k, name, i, k, i)
+		maxLen := "vGenMaxLen()"
+		if !isByte(u.Elem()) {
+			maxLen = "2" // two elements also in the quick tier: aliasing and ordering mistakes need a second element to show
+		}
+		fmt.Fprintf(w, "%sfor %s, %s := 0, vGenLen(%s+\".len\", %s); %s < %s; %s++ {\n", ind, i, k, name, maxLen, i, k, i)
 		e := tmp("e")
 		fmt.Fprintf(w, "%s\tvar %s %s\n", ind, e, gp.ts(u.Elem()))
+		lean := tmp("lean")
+		if !isByte(u.Elem()) {
+			// elements after the first are lean (no nested byte strings / lists): keeps the product of choices small
+			fmt.Fprintf(w, "%s\t%s := vGenLean\n%s\tif %s > 0 {\n%s\t\tvGenLean = true\n%s\t}\n", ind, lean, ind, i, ind, ind)
+		}
 		g.elemNonNil = true
-		g.fill(gp, w, ind+"\t", u.Elem(), e, name+"+\"[]\"", depth+1)
+		g.fill(gp, w, ind+"\t", u.Elem(), e, name+"+vGenIdx("+i+")", depth+1)
 		g.elemNonNil = false
+		if !isByte(u.Elem()) {
+			fmt.Fprintf(w, "%s\tvGenLean = %s\n", ind, lean)
+		}
 		fmt.Fprintf(w, "%s\t%s = append(%s, %s)\n%s}\n", ind, lv, lv, e, ind)
 	case *types.Map:
 		kv, vv := tmp("mk"), tmp("mv")
-		fmt.Fprintf(w, "%sif vBool(%s + \".hasEntry\") {\n", ind, name)
+		fmt.Fprintf(w, "%sif !vGenLean && vBool(%s+\".hasEntry\") {\n", ind, name)
 		fmt.Fprintf(w, "%s\tvar %s %s\n%s\tvar %s %s\n", ind, kv, gp.ts(u.Key()), ind, vv, gp.ts(u.Elem()))
 		g.fill(gp, w, ind+"\t", u.Key(), kv, name+"+\".key\"", depth+1)
 		g.elemNonNil = true
@@ -452,6 +464,13 @@ func GenerateTypeSupport(repo, harnessDir, genDir string, req *GenRequest) ([]st
 			sb.WriteString(")\n\n")
 		}
 		sb.WriteString("func vGenMaxLen() int {\n\tif vThorough() {\n\t\treturn 2\n\t}\n\treturn 1\n}\n\n")
+		// every generated input has its own name (no reliance on the order in which equal names are numbered)
+		sb.WriteString("// vGenLean: nested byte strings and lists stay empty (set while the later elements of a list are filled)\nvar vGenLean bool\n\n// vGenNoOptional: optional (pointer) fields stay nil\nvar vGenNoOptional bool\n\nfunc vGenLen(name string, max int) int {\n\tif vGenLean {\n\t\treturn 0\n\t}\n\treturn vChoice(name, max+1)\n}\n\n")
+		sb.WriteString("var vGenIdxTab = [...]string{")
+		for i := 0; i < 64; i++ {
+			fmt.Fprintf(&sb, "\"[%d]\", ", i)
+		}
+		sb.WriteString("}\n\nfunc vGenIdx(i int) string {\n\tif i < len(vGenIdxTab) {\n\t\treturn vGenIdxTab[i]\n\t}\n\treturn \"[+]\"\n}\n\n")
 		sb.WriteString(gp.body.String())
 		if err := os.WriteFile(filepath.Join(d, "zz_verif_gen.go"), []byte(sb.String()), 0o644); err != nil {
 			return nil, err
